@@ -89,6 +89,7 @@ def iter_docs(tier, shard):
 def plan(tier):
     shards = [('docs', (pi, k)) for pi in range(len(PROFILES[tier])) for k in range(NSL)] + [('compose', k) for k in range(16)]
     shards += [('adj', k) for k in range(8)]
+    shards += [('hist', k) for k in range(len(HIST_DOCS))]
     return dict(
         shards=shards, bounds=dict(profiles=PROFILES[tier], option_sets=len(OPTS)),
         rule=('core grammar (mc/docgen.py SIGS["C"]): ' + '; '.join('size <= %d, <= %s non-default argument forms, <= %d deviations'
@@ -96,7 +97,7 @@ def plan(tier):
               ' x 32 option sets (4 strict_latex_spaces x 4 math_mode x keep_braced_groups): latex_to_text(strict parse) == reference '
               'renderer, exactly; composition: all ordered pairs of self-contained blocks (derivations of size <= 2 that begin and end '
               'with text) joined by a paragraph break / a space under every option set; adjacency family: bare symbol macro, one single-item construct, text, '
-              'at top level / in a group / in each formula form, with one whitespace deviation at every boundary; the same call twice with different texts.  one evaluation = one document under all option sets; '
+              'at top level / in a group / in each formula form, with one whitespace deviation at every boundary; the same call twice with different texts; converter call histories: all sequences of <= 2 (3) documents of a 14-document menu (formula nested in a formula through a text-mode argument, display math, equation environment, policy-sensitive adjacencies, lists, accents, specials, ...) converted by ONE converter per option set, each result compared with the reference for that document alone, and each ordered pair as one document joined by a paragraph break.  one evaluation = one document under all option sets; '
               'non-trivial = documents containing a macro, specials, comment, environment or formula.'),
         assumptions=['the reference renderer works on the parsed tree: C03 presupposes C01/C02 (tree is the written structure)',
                      'symbol / accent / specials tables for the ~25 names used are transcribed from the documentation, not imported'],
@@ -145,6 +146,34 @@ def check_doc(doc, acc, sub='docs', fresh=False):
                           observed=repr(got), expected=repr(exp))
             return
     acc.outcome(exp)
+
+
+def check_text(text, acc, sub='histdoc'):
+    acc.count('evaluations')
+    acc.count('nontrivial')
+    st, res = run_guarded(contexts.parse, text, 'C', False)
+    if st != 'ok':
+        acc.count('not_parsed')
+        return
+    from pylatexenc.latex2text import LatexNodes2Text
+    for o in OPTS:
+        r = ref.Ref(strict_latex_spaces=o[0], math_mode=o[1], keep_braced_groups=o[2])
+        try:
+            exp = r.nodes(res[1])
+        except ref.Unsupported:
+            acc.count('unsupported')
+            return
+        conv = LatexNodes2Text(strict_latex_spaces=o[0], math_mode=o[1], keep_braced_groups=o[2])
+        st2, got = run_guarded(conv.latex_to_text, text, tolerant_parsing=False)
+        acc.count('renderings')
+        case = dict(s=text, opt=list(map(str, o)))
+        if st2 != 'ok':
+            acc.violation(ID, sub, case, dict(kind='latex_to_text-raises' if st2 == 'exc' else 'hang', exc=type(got).__name__ if st2 == 'exc' else None))
+            return
+        if got != exp:
+            acc.violation(ID, sub, case, dict(kind='text-differs-from-documented-rules', how=_how(got, exp), policy=str(o[0]), math_mode=o[1]),
+                          observed=repr(got), expected=repr(exp))
+            return
 
 
 def _how(got, exp):
@@ -218,6 +247,53 @@ def iter_adjacency(k):
                                 yield d
 
 
+# ---- one converter object used for several documents (call histories)
+
+HIST_DOCS = ['$a \\textbf{b $c$} d$ e', '\\[a \\textbf{$b$} c\\] d', '\\begin{equation}a\\textbf{b $c$}d\\end{equation} e',
+             '{x} {y} \\alpha z', '\\alpha a \\o{} b \\ss', 'a %c\n b', '\\begin{itemize}\\item a\\item[b] c\\end{itemize}',
+             "\\'e \\~{n}", "a~b---c``d''", '\\frac{a}{b} \\sqrt[3]{x}', '$a$ {b} $$c \\alpha d$$', '\\emph{a} \\textbf{b}\\\\ c',
+             '\\hspace{a} \\label{b}c', '$a \\textbf{$b$}$']
+
+
+def check_history(hist, acc, sub='hist'):
+    """hist: indices into HIST_DOCS converted one after another by ONE converter per option set; every result must be
+    what the documented rules give for that document alone."""
+    from pylatexenc.latex2text import LatexNodes2Text
+    acc.count('evaluations')
+    acc.count('nontrivial')
+    acc.count('histories')
+    parsed = []
+    for i in hist:
+        st, res = run_guarded(contexts.parse, HIST_DOCS[i], 'C', False)
+        if st != 'ok':
+            acc.count('not_parsed')
+            return
+        parsed.append(res[1])
+    for o in OPTS:
+        conv = LatexNodes2Text(strict_latex_spaces=o[0], math_mode=o[1], keep_braced_groups=o[2])
+        r = ref.Ref(strict_latex_spaces=o[0], math_mode=o[1], keep_braced_groups=o[2])
+        for step, i in enumerate(hist):
+            try:
+                exp = r.nodes(parsed[step])
+            except ref.Unsupported:
+                acc.count('unsupported')
+                return
+            if step % 2 == 0:
+                st, got = run_guarded(conv.latex_to_text, HIST_DOCS[i], tolerant_parsing=False)
+            else:
+                st, got = run_guarded(conv.nodelist_to_text, parsed[step])
+            acc.count('renderings')
+            case = dict(history=list(hist), step=step, s=HIST_DOCS[i], opt=list(map(str, o)))
+            if st != 'ok':
+                acc.violation(ID, sub, case, dict(kind='latex_to_text-raises' if st == 'exc' else 'hang', exc=type(got).__name__ if st == 'exc' else None,
+                                                  after_earlier_calls=step > 0))
+                break
+            if got != exp:
+                acc.violation(ID, sub, case, dict(kind='text-differs-from-documented-rules', how=_how(got, exp), policy=str(o[0]), math_mode=o[1],
+                                                  after_earlier_calls=step > 0), observed=repr(got), expected=repr(exp))
+                break
+
+
 def iter_twice():
     """The same call / symbol / accent twice in one document with different texts (a rendering that remembers
     the first occurrence would show), at top level, in a group and in each formula form."""
@@ -237,6 +313,19 @@ def iter_twice():
 
 
 def run_shard(shard, tier, acc):
+    if shard[0] == 'hist':
+        n = len(HIST_DOCS)
+        first = shard[1]
+        check_history((first,), acc)
+        for j in range(n):
+            check_history((first, j), acc)
+            # the two documents as one document, joined by a paragraph break
+            d2 = HIST_DOCS[first] + '\n\n' + HIST_DOCS[j]
+            check_text(d2, acc)
+            if tier == 'thorough':
+                for k in range(n):
+                    check_history((first, j, k), acc)
+        return
     if shard[0] == 'adj':
         for doc in iter_adjacency(shard[1]):
             check_doc(doc, acc, 'adj')
@@ -254,6 +343,13 @@ def run_shard(shard, tier, acc):
 
 def replay(sub, case):
     acc = engine.Acc()
+    if sub == 'hist':
+        check_history(tuple(case['history']), acc)
+        acc.violations = [v for v in acc.violations if v['case'].get('opt') == case.get('opt')]
+        return acc.violations
+    if sub == 'histdoc':
+        check_text(case['s'], acc)
+        return acc.violations
     if sub == 'compose':
         l = l2t_obj(next(o for o in OPTS if list(map(str, o)) == case['opt']))
         a, b, sep = case['a'], case['b'], case['sep']
